@@ -28,6 +28,10 @@ func goClosure(f *ssa.Function) *ssa.Function {
 			if mc, ok := g.Call.Value.(*ssa.MakeClosure); ok {
 				return mc.Fn.(*ssa.Function)
 			}
+			// the literal was turned into a named function or method: `go r.writeMultipartBody(mp, pw)`
+			if sc := g.Call.StaticCallee(); sc != nil && sc.Blocks != nil && isRepoPath(fnPkgPath(sc)) {
+				return sc
+			}
 		}
 	}
 	return nil
@@ -56,17 +60,52 @@ func runC11(c *Ctx) {
 	for _, fn := range p.LibFuncs() {
 		for _, ci := range allCalls(fn) {
 			cc := ci.Common()
-			if !cc.IsInvoke() || cc.Method.Name() != "Read" || len(cc.Args) != 1 {
+			var buf ssa.Value
+			switch {
+			case cc.IsInvoke() && cc.Method.Name() == "Read" && len(cc.Args) == 1:
+				buf = cc.Args[0]
+			case calleeName(cc) == "io.ReadFull" && len(cc.Args) == 2:
+				// fills the window: a source shorter than the window answers io.ErrUnexpectedEOF (io.EOF only when
+				// empty) — both are "the file is short", not a failed upload
+				buf = cc.Args[1]
+				if call, isCall := ci.(*ssa.Call); isCall {
+					ev := resultOf(call, 1)
+					tolerated := false
+					for _, in := range instrs(fn) {
+						bo, isBo := in.(*ssa.BinOp)
+						if !isBo || (bo.Op != token.EQL && bo.Op != token.NEQ) {
+							continue
+						}
+						isE := func(v ssa.Value) bool {
+							ad, okD := derefLoad(v)
+							if !okD {
+								return false
+							}
+							gl, okG := ad.(*ssa.Global)
+							return okG && short(gl.String()) == "io.ErrUnexpectedEOF"
+						}
+						isEv := func(v ssa.Value) bool { okV, _ := allOrigins(v, oIsValue(ev)); return okV }
+						if ev != nil && ((isEv(bo.X) && isE(bo.Y)) || (isEv(bo.Y) && isE(bo.X))) {
+							tolerated = true
+						}
+					}
+					if errorsIsCall(fn, ev, "io.ErrUnexpectedEOF") {
+						tolerated = true
+					}
+					c.obI("R11.1", ci, "short-source-is-not-a-failure", tolerated, "when the sniffing window is filled with io.ReadFull, io.ErrUnexpectedEOF (a file shorter than the window) is told apart from a failed read", "the error of io.ReadFull is never compared with io.ErrUnexpectedEOF: every non-empty file shorter than the window fails the upload")
+				}
+			default:
 				continue
 			}
-			buf := cc.Args[0]
 			var ms ssa.Value
 			switch x := buf.(type) {
 			case *ssa.MakeSlice:
 				ms = x
 			case *ssa.Slice:
-				if al, ok := x.X.(*ssa.Alloc); ok && x.Low == nil && al.Comment == "makeslice" && al.Parent() == fn {
-					ms = x // make([]byte, <const>) is lowered to a slice of a local array
+				if al, ok := x.X.(*ssa.Alloc); ok && x.Low == nil && (x.High == nil || al.Comment == "makeslice") && al.Parent() == fn {
+					if _, isArr := al.Type().Underlying().(*types.Pointer).Elem().Underlying().(*types.Array); isArr {
+						ms = x // make([]byte, <const>) is lowered to a slice of a local array; `var head [N]byte; head[:]` is one
+					}
 				}
 			}
 			if ms == nil {
@@ -78,7 +117,18 @@ func runC11(c *Ctx) {
 			}
 			nRead++
 			n := resultOf(call, 0)
-			for _, ref := range *ms.Referrers() {
+			refs := append([]ssa.Instruction{}, (*ms.Referrers())...)
+			if sl, isSl := ms.(*ssa.Slice); isSl {
+				// the buffer is a local array: its other slicings (head[:n]) are uses of the same memory
+				if al, isAl := sl.X.(*ssa.Alloc); isAl && al.Referrers() != nil {
+					for _, r2 := range *al.Referrers() {
+						if s2, ok2 := r2.(*ssa.Slice); ok2 && s2 != sl {
+							refs = append(refs, s2)
+						}
+					}
+				}
+			}
+			for _, ref := range refs {
 				in, _ := ref.(ssa.Instruction)
 				if in == ssa.Instruction(call) || !canFollow(call, in) {
 					continue
@@ -102,6 +152,7 @@ func runC11(c *Ctx) {
 		_, isSl := d.Common().Args[0].(*ssa.Slice)
 		c.obI("R11.1", d, "sniffs-read-content", isSl, "the part's content type is sniffed from the bytes actually read", "")
 	}
+	ruleUploadFailuresPropagated(c, "R11.4", g) // (a part whose copy failed is never sent as if it were complete)
 	copies := callsIn(g, "io.Copy")
 	c.obRF("R11.4", g, "copies-files", len(copies) == 1, "each file is copied into its part", fmt.Sprintf("%d io.Copy", len(copies)))
 	var fileLoopElem ssa.Value
@@ -325,17 +376,40 @@ func runC11(c *Ctx) {
 	c.obRF("R11.3", f, "pipe-and-writer", len(mws) == 1 && len(pipes) == 1, "one pipe, one multipart writer", fmt.Sprintf("%d/%d", len(pipes), len(mws)))
 	if len(mws) == 1 && len(pipes) == 1 {
 		mw, pipe := mws[0].(*ssa.Call), pipes[0].(*ssa.Call)
-		okW, _ := allOrigins(mw.Call.Args[0], oIsValue(resultOf(pipe, 1)))
+		okW, _ := allOrigins(mw.Call.Args[0], oIsValue(resultOf(pipe, 1)), oNil()) // (nil: the variable's zero value on the paths that made no pipe)
+		okW = okW && someOrigin(mw.Call.Args[0], oIsValue(resultOf(pipe, 1)))
 		c.obI("R11.3", mw, "writer-writes-into-pipe", okW, "the multipart writer writes into the pipe's write end", "")
 		for _, ci := range callsIn(f, "rt/client.mangleContentType") {
 			okB, _ := allOrigins(ci.Common().Args[1], oCallWhere(-1, "(*mime/multipart.Writer).Boundary", func(b *ssa.Call) bool {
 				okk, _ := allOrigins(b.Call.Args[0], oIsValue(mw))
 				return okk
 			}))
+			if !okB {
+				// the helper is handed the writer itself and asks it for its boundary
+				if okWr, _ := allOrigins(ci.Common().Args[1], oIsValue(mw)); okWr {
+					if callee := ci.Common().StaticCallee(); callee != nil && len(callee.Params) >= 2 {
+						for _, bc := range callsIn(callee, "(*mime/multipart.Writer).Boundary") {
+							if bc.Common().Args[0] == ssa.Value(callee.Params[1]) {
+								okB = true
+							}
+						}
+					}
+				}
+			}
 			okM := ci.Common().Args[0] == ssa.Value(paramOf(f, 0))
 			c.obI("R11.3", ci, "boundary-of-the-writer", okB && okM, "the multipart Content-Type carries the boundary of the very writer that produces the body", "")
 		}
 		// goroutine's mp and pw are those
+		if _, isLit := theGo(f).Call.Value.(*ssa.MakeClosure); !isLit {
+			// a named function started with the writer as an argument
+			okk := false
+			for _, a := range theGo(f).Call.Args {
+				if okA, _ := allOrigins(a, oIsValue(mw)); okA {
+					okk = true
+				}
+			}
+			c.obI("R11.3", theGo(f), "goroutine-uses-the-writer", okk, "the goroutine writes through that writer", "")
+		}
 		for i, fv := range g.FreeVars {
 			b := theGo(f).Call.Value.(*ssa.MakeClosure).Bindings[i]
 			switch fv.Name() {
@@ -416,6 +490,73 @@ func runC11(c *Ctx) {
 			}
 			c.obI("R11.3", gate, "payload-through-producer", !pathExists(f, gate, nrs[0], anyFact(noPayload, isReader), isProduce), "a payload that is not a reader is always encoded by the producer chosen for the media type (no Go type of payload bypasses it)", "a path with a non-reader payload reaches http.NewRequest without the producer having run")
 		}
+	}
+	// a reader payload is sent as the reader stands: buildHTTP never operates on it (no Seek, Read, Reset … before it
+	// becomes the body) — "the exact bytes of a reader payload" are the bytes the reader yields from where it is
+	{
+		isPayloadV := func(v ssa.Value) bool {
+			return vFieldLoad(clientReqT, "payload", nil)(v) || vFieldLoadO(clientReqT, "payload")(v)
+		}
+		fromPayload := func(v ssa.Value) bool {
+			for _, o := range originsOf(v) {
+				x := o.V
+				for i := 0; i < 4; i++ {
+					if ta, ok := x.(*ssa.TypeAssert); ok {
+						x = ta.X
+						continue
+					}
+					if ex, ok := x.(*ssa.Extract); ok {
+						x = ex.Tuple
+						continue
+					}
+					break
+				}
+				if isPayloadV(x) {
+					return true
+				}
+			}
+			return false
+		}
+		for _, ci := range allCalls(f) {
+			if ci.Parent() != f || !ci.Common().IsInvoke() {
+				continue
+			}
+			if !fromPayload(ci.Common().Value) {
+				continue
+			}
+			c.obI("R11.3", ci, "reader-payload-untouched", false, "buildHTTP invokes nothing on the payload: a reader payload becomes the body exactly as it stands", "the payload's method "+ci.Common().Method.Name()+" is invoked before it is sent")
+		}
+	}
+	// the URL-encoded form is written into the buffer only when the request is not multipart (for multipart the
+	// buffer later receives the copy of the piped document shown to the auth writer: anything already in it would be
+	// sent in front of the multipart document)
+	{
+		notMultipart := factBool(func(v ssa.Value) bool {
+			call := asCall(v)
+			return call != nil && calleeName(&call.Call) == "(*rt/client.request).isMultipart"
+		}, false)
+		nForm := 0
+		for _, ci := range callsIn(f, "(*bytes.Buffer).WriteString", "(*bytes.Buffer).Write", "io.WriteString") {
+			if ci.Parent() != f {
+				continue
+			}
+			_, a := callArgs(ci.Common())
+			if calleeName(ci.Common()) == "io.WriteString" && len(a) == 2 {
+				a = a[1:] // io.WriteString(r.buf, form)
+			}
+			if len(a) != 1 {
+				continue
+			}
+			isForm, _ := allOrigins(a[0], oCallWhere(-1, "(net/url.Values).Encode", func(e *ssa.Call) bool {
+				return isFormFieldsV(e.Call.Args[0])
+			}))
+			if !isForm {
+				continue
+			}
+			nForm++
+			c.obI("R11.3", ci, "form-encoding-only-when-not-multipart", guardedBy(ci, nil, notMultipart), "the URL-encoding of the form fields is written to the body buffer only on the path on which the request is not multipart", "the form encoding can be written although the request is multipart (the buffer is then served to the auth writer, and sent, in front of the multipart document)")
+		}
+		c.obRF("R11.3", f, "writes-form-encoding", nForm >= 1, "buildHTTP URL-encodes the form fields", "")
 	}
 	c.obRF("R11.3", f, "sets-content-type", nCT >= 3, "each body-carrying path sets the Content-Type", fmt.Sprintf("%d sites", nCT))
 	mc := p.Fn("rt/client.mangleContentType")
@@ -553,6 +694,29 @@ func runC11(c *Ctx) {
 		}
 		c.obRF("R11.5", mf, "forwards", n == 1, "namedReadCloser."+m+" forwards to the wrapped reader", "")
 	}
+	// the wrapper declares a content type only if it has one to declare: the multipart writer tests for the PRESENCE of
+	// a ContentType() method and skips sniffing when it is there, so a method that can answer "" sends a part with an
+	// empty Content-Type
+	for _, name := range []string{"(*rt.namedReadCloser).ContentType", "(rt.namedReadCloser).ContentType"} {
+		mf := p.FnOpt(name)
+		if mf == nil || mf.Blocks == nil {
+			continue
+		}
+		for _, r := range realReturns(mf) {
+			if len(r.Results) != 1 {
+				continue
+			}
+			empty := false
+			for _, o := range originsOf(r.Results[0]) {
+				if k, ok := constString(o.V); ok && k == "" {
+					empty = true
+				}
+			}
+			c.definite = true
+			c.obI("R11.5", r, "named-wrapper-declares-no-empty-type", !empty, "the NamedReader wrapper never declares an empty content type (having the method at all switches content sniffing off)", "ContentType() of the wrapper can return \"\": the part is then sent with an empty Content-Type instead of the sniffed one")
+			c.definite = false
+		}
+	}
 	c.min("R11.5", 4)
 }
 
@@ -618,6 +782,32 @@ func valueMentions(v, target ssa.Value, depth int) bool {
 					}
 				}
 			}
+		}
+	}
+	return false
+}
+
+func isFormFieldsV(v ssa.Value) bool {
+	return vFieldLoad(clientReqT, "formFields", nil)(v) || vFieldLoadO(clientReqT, "formFields")(v)
+}
+
+// errorsIsCall: fn calls errors.Is(ev, <global name>).
+func errorsIsCall(fn *ssa.Function, ev ssa.Value, global string) bool {
+	if ev == nil {
+		return false
+	}
+	for _, ci := range callsIn(fn, "errors.Is") {
+		a := ci.Common().Args
+		if len(a) != 2 {
+			continue
+		}
+		okE, _ := allOrigins(a[0], oIsValue(ev))
+		ad, okD := derefLoad(a[1])
+		if !okE || !okD {
+			continue
+		}
+		if gl, okG := ad.(*ssa.Global); okG && short(gl.String()) == global {
+			return true
 		}
 	}
 	return false
